@@ -67,3 +67,33 @@ def structural_ops(ops):
 
 def short(text, n=400):
     return text if len(text) <= n else text[:n] + "…(%d chars)" % len(text)
+
+
+def shrink_text_case(run_case, case, sig, tier, budget, key="text"):
+    """generic: delete lines of case[key] (ddmin) while the same signature is still reported"""
+    import time
+
+    from harness import shrink as shr
+    from harness.run import sig_str, time_limit, CaseTimeout
+
+    want = sig_str(sig)
+    deadline = time.time() + budget
+
+    def still(txt):
+        c = dict(case)
+        c[key] = txt
+        try:
+            with time_limit(60):
+                r = run_case(c, tier)
+        except CaseTimeout:
+            return False
+        except Exception:
+            return False
+        return any(sig_str(f["sig"]) == want for f in r.get("failures", []))
+
+    if key not in case or not isinstance(case[key], str):
+        return case
+    new = shr.shrink_lines(case[key], still, deadline)
+    c = dict(case)
+    c[key] = new
+    return c
